@@ -405,22 +405,20 @@ theorem fromUc_renames (lines : List (List String)) (fasta : List String) (t t' 
   | ok m =>
     simp only [hm, renameObs] at ht'
     refine ⟨m, rfl, ?_⟩
-    split at ht'
-    · cases ht'
-    · cases hids : t.obs.mapM (mapGet m) with
-      | none => simp [hids] at ht'
-      | some ids =>
-        simp only [hids] at ht'
-        split at ht'
-        · cases ht'
-        · rename_i hd
-          cases ht'
-          refine ⟨rfl, ?_, rfl, rfl⟩
-          simp only []
-          by_cases hn : ids.Nodup
-          · exact hn
-          · have := dedup_length_lt ids hn
-            exact absurd (by omega) hd
+    cases hids : t.obs.mapM (mapGet m) with
+    | none => simp [hids] at ht'
+    | some ids =>
+      simp only [hids] at ht'
+      split at ht'
+      · cases ht'
+      · rename_i hd
+        cases ht'
+        refine ⟨rfl, ?_, rfl, rfl⟩
+        simp only []
+        by_cases hn : ids.Nodup
+        · exact hn
+        · have := dedup_length_lt ids hn
+          exact absurd (by omega) hd
 
 /-! ### the adjacency predicate holds of the model -/
 
@@ -675,48 +673,41 @@ theorem uc_checks (recs : List UcRec) (st : UcState) (inv : UcInv st recs)
 theorem renamed_id (st : UcState) : renamed st (fun x => x) = ucTable st := by
   simp [renamed, ucTable]
 
-theorem renameObs_ok (st : UcState) (m : List (String × String)) (hm : m ≠ [])
+theorem renameObs_ok (st : UcState) (m : List (String × String))
     (hall : ∀ o ∈ st.obsIds, (mapGet m o).isSome = true)
     (hnd : (st.obsIds.map (fun o => (mapGet m o).getD "")).Nodup) :
     renameObs (ucTable st) m = .ok (renamed st (fun o => (mapGet m o).getD "")) := by
-  have he : m.isEmpty = false := by
-    cases m with
-    | nil => exact absurd rfl hm
-    | cons _ _ => rfl
   have hmap : (ucTable st).obs.mapM (mapGet m) = some (st.obsIds.map (fun o => (mapGet m o).getD "")) :=
     mapM_option_some (mapGet m) st.obsIds hall
-  simp only [renameObs, he, Bool.false_eq_true, if_false, hmap, dedup_of_nodup _ hnd, ne_eq,
-    not_true_eq_false, renamed]
+  simp only [renameObs, hmap, dedup_of_nodup _ hnd, ne_eq, not_true_eq_false, if_false, renamed]
 
 theorem renameObs_err (st : UcState) (m : List (String × String))
     (h : (∃ o ∈ st.obsIds, mapGet m o = none) ∨
          ¬ (st.obsIds.map (fun o => (mapGet m o).getD "")).Nodup) :
     ∃ e, renameObs (ucTable st) m = .error e := by
   simp only [renameObs]
-  split
-  · exact ⟨_, rfl⟩
-  · by_cases hall : ∀ o ∈ st.obsIds, (mapGet m o).isSome = true
-    · have hmap : (ucTable st).obs.mapM (mapGet m) = some (st.obsIds.map (fun o => (mapGet m o).getD "")) :=
-        mapM_option_some (mapGet m) st.obsIds hall
-      have hnd : ¬ (st.obsIds.map (fun o => (mapGet m o).getD "")).Nodup := by
-        rcases h with ⟨o, ho, hn⟩ | h
-        · have := hall o ho; rw [hn] at this; cases this
-        · exact h
-      have := dedup_length_lt _ hnd
-      simp only [hmap]
-      rw [if_pos (by omega)]
-      exact ⟨_, rfl⟩
-    · have : ∃ o ∈ st.obsIds, mapGet m o = none := by
-        apply Classical.byContradiction
-        intro hc
-        apply hall
-        intro o ho
-        cases hx : mapGet m o with
-        | some _ => rfl
-        | none => exact absurd ⟨o, ho, hx⟩ hc
-      have hmap : (ucTable st).obs.mapM (mapGet m) = none := mapM_option_none (mapGet m) st.obsIds this
-      simp only [hmap]
-      exact ⟨_, rfl⟩
+  by_cases hall : ∀ o ∈ st.obsIds, (mapGet m o).isSome = true
+  · have hmap : (ucTable st).obs.mapM (mapGet m) = some (st.obsIds.map (fun o => (mapGet m o).getD "")) :=
+      mapM_option_some (mapGet m) st.obsIds hall
+    have hnd : ¬ (st.obsIds.map (fun o => (mapGet m o).getD "")).Nodup := by
+      rcases h with ⟨o, ho, hn⟩ | h
+      · have := hall o ho; rw [hn] at this; cases this
+      · exact h
+    have := dedup_length_lt _ hnd
+    simp only [hmap]
+    rw [if_pos (by omega)]
+    exact ⟨_, rfl⟩
+  · have : ∃ o ∈ st.obsIds, mapGet m o = none := by
+      apply Classical.byContradiction
+      intro hc
+      apply hall
+      intro o ho
+      cases hx : mapGet m o with
+      | some _ => rfl
+      | none => exact absurd ⟨o, ho, hx⟩ hc
+    have hmap : (ucTable st).obs.mapM (mapGet m) = none := mapM_option_none (mapGet m) st.obsIds this
+    simp only [hmap]
+    exact ⟨_, rfl⟩
 
 /-- **uc_model_holds.** The uc part of the property is true of the model on every document and every
 fasta file (or none): a malformed H/S/L line, an H/S query label without underscore, a malformed
@@ -770,66 +761,63 @@ theorem uc_model_holds (lines : List (List String)) (fasta : Option (List String
           have : fromUc lines (some fl) = .error e := by simp [fromUc, hres, hm, bind, Except.bind]
           simp [this, noTable, chk]
         | ok m =>
-          cases m with
-          | nil => rfl
-          | cons p ps =>
-            have hfrom : fromUc lines (some fl) = renameObs (ucTable st) (p :: ps) := by
-              simp [fromUc, hres, hm, bind, Except.bind]
-            simp only [hfrom]
-            by_cases hok : labelsOk (mapGet (p :: ps)) recs = true
-            · simp only [hok, Bool.not_true, Bool.false_eq_true, if_false]
-              simp only [labelsOk, Bool.and_eq_true, List.all_eq_true, Bool.or_eq_true, bne_iff_ne, ne_eq,
-                beq_iff_eq] at hok
-              have hall : ∀ o ∈ st.obsIds, (mapGet (p :: ps) o).isSome = true := by
+          have hfrom : fromUc lines (some fl) = renameObs (ucTable st) m := by
+            simp [fromUc, hres, hm, bind, Except.bind]
+          simp only [hfrom]
+          by_cases hok : labelsOk (mapGet m) recs = true
+          · simp only [hok, Bool.not_true, Bool.false_eq_true, if_false]
+            simp only [labelsOk, Bool.and_eq_true, List.all_eq_true, Bool.or_eq_true, bne_iff_ne, ne_eq,
+              beq_iff_eq] at hok
+            have hall : ∀ o ∈ st.obsIds, (mapGet m o).isSome = true := by
+              intro o ho
+              obtain ⟨r, hr, e⟩ := (inv.seeds o).mp ho
+              rw [← e]; exact hok.1 r hr
+            have hlab : ∀ o ∈ st.obsIds, mapGet m o = some ((mapGet m o).getD "") := by
+              intro o ho
+              obtain ⟨y, hy⟩ := Option.isSome_iff_exists.mp (hall o ho)
+              simp [hy]
+            have hinj : ∀ a ∈ st.obsIds, ∀ b ∈ st.obsIds,
+                (mapGet m a).getD "" = (mapGet m b).getD "" → a = b := by
+              intro a ha b hb e
+              obtain ⟨r1, hr1, e1⟩ := (inv.seeds a).mp ha
+              obtain ⟨r2, hr2, e2⟩ := (inv.seeds b).mp hb
+              rcases hok.2 r1 hr1 r2 hr2 with h | h
+              · exfalso; apply h
+                rw [e1, e2, hlab a ha, hlab b hb, e]
+              · rw [← e1, ← e2]; exact h
+            rw [renameObs_ok st m hall (nodup_map_of_inj _ _ inv.nodupO hinj)]
+            exact uc_checks recs st inv hq (mapGet m) _ hlab hinj
+          · have hok' : labelsOk (mapGet m) recs = false := by
+              cases hx : labelsOk (mapGet m) recs with
+              | false => rfl
+              | true => exact absurd hx hok
+            simp only [hok', Bool.not_false, if_true]
+            have herr : ∃ e, renameObs (ucTable st) m = .error e := by
+              apply renameObs_err
+              by_cases hall : ∀ o ∈ st.obsIds, (mapGet m o).isSome = true
+              · right
+                intro hnd
+                have hinj := inj_of_nodup_map _ _ hnd
+                have : labelsOk (mapGet m) recs = true := by
+                  simp only [labelsOk, Bool.and_eq_true, List.all_eq_true, Bool.or_eq_true, bne_iff_ne,
+                    ne_eq, beq_iff_eq]
+                  refine ⟨fun r hr => hall _ (hseed r hr), ?_⟩
+                  intro r1 hr1 r2 hr2
+                  by_cases hl : mapGet m r1.seed = mapGet m r2.seed
+                  · right
+                    exact hinj _ (hseed r1 hr1) _ (hseed r2 hr2) (by simp only [hl])
+                  · left; exact hl
+                rw [this] at hok'; cases hok'
+              · left
+                apply Classical.byContradiction
+                intro hc
+                apply hall
                 intro o ho
-                obtain ⟨r, hr, e⟩ := (inv.seeds o).mp ho
-                rw [← e]; exact hok.1 r hr
-              have hlab : ∀ o ∈ st.obsIds, mapGet (p :: ps) o = some ((mapGet (p :: ps) o).getD "") := by
-                intro o ho
-                obtain ⟨y, hy⟩ := Option.isSome_iff_exists.mp (hall o ho)
-                simp [hy]
-              have hinj : ∀ a ∈ st.obsIds, ∀ b ∈ st.obsIds,
-                  (mapGet (p :: ps) a).getD "" = (mapGet (p :: ps) b).getD "" → a = b := by
-                intro a ha b hb e
-                obtain ⟨r1, hr1, e1⟩ := (inv.seeds a).mp ha
-                obtain ⟨r2, hr2, e2⟩ := (inv.seeds b).mp hb
-                rcases hok.2 r1 hr1 r2 hr2 with h | h
-                · exfalso; apply h
-                  rw [e1, e2, hlab a ha, hlab b hb, e]
-                · rw [← e1, ← e2]; exact h
-              rw [renameObs_ok st (p :: ps) (by simp) hall (nodup_map_of_inj _ _ inv.nodupO hinj)]
-              exact uc_checks recs st inv hq (mapGet (p :: ps)) _ hlab hinj
-            · have hok' : labelsOk (mapGet (p :: ps)) recs = false := by
-                cases hx : labelsOk (mapGet (p :: ps)) recs with
-                | false => rfl
-                | true => exact absurd hx hok
-              simp only [hok', Bool.not_false, if_true]
-              have herr : ∃ e, renameObs (ucTable st) (p :: ps) = .error e := by
-                apply renameObs_err
-                by_cases hall : ∀ o ∈ st.obsIds, (mapGet (p :: ps) o).isSome = true
-                · right
-                  intro hnd
-                  have hinj := inj_of_nodup_map _ _ hnd
-                  have : labelsOk (mapGet (p :: ps)) recs = true := by
-                    simp only [labelsOk, Bool.and_eq_true, List.all_eq_true, Bool.or_eq_true, bne_iff_ne,
-                      ne_eq, beq_iff_eq]
-                    refine ⟨fun r hr => hall _ (hseed r hr), ?_⟩
-                    intro r1 hr1 r2 hr2
-                    by_cases hl : mapGet (p :: ps) r1.seed = mapGet (p :: ps) r2.seed
-                    · right
-                      exact hinj _ (hseed r1 hr1) _ (hseed r2 hr2) (by simp only [hl])
-                    · left; exact hl
-                  rw [this] at hok'; cases hok'
-                · left
-                  apply Classical.byContradiction
-                  intro hc
-                  apply hall
-                  intro o ho
-                  cases hx : mapGet (p :: ps) o with
-                  | some _ => rfl
-                  | none => exact absurd ⟨o, ho, hx⟩ hc
-              obtain ⟨e, he⟩ := herr
-              simp [he, noTable, chk]
+                cases hx : mapGet m o with
+                | some _ => rfl
+                | none => exact absurd ⟨o, ho, hx⟩ hc
+            obtain ⟨e, he⟩ := herr
+            simp [he, noTable, chk]
 
 /-! ### non-vacuity: concrete inputs meet the hypotheses, and the conclusions are not trivial -/
 
